@@ -11,7 +11,7 @@ DOMS = ["intervals", "split_dbm", "sparse_dbm", "split_oct", "bool_int", "dis_in
 def gen(ck, n):
     ps = []
     for i in range(n):
-        p = proggen.program(ck.rng, i + 1, asserts=True, nints=3, nbools=0, profile=ck.rng.choice(["full", "linear"]))
+        p = proggen.program(ck.rng, i + 1, asserts=True, nints=3, nbools=0, profile=ck.rng.choice(["full", "linear", "bwd", "bwd"]))
         ints = [1, 2, 3]
         fwdinv = []
         if ck.rng.random() < 0.4:
